@@ -276,11 +276,15 @@ PROPS["C19"] = Spec(
     rule="function source is generated and exec'd: 0-3 ordinary parameters (positional-or-keyword / keyword-only, with/without "
     "defaults), 1-3 injected parameters (resource() / resource(name); annotations T, Optional[T], T | None, string forward references "
     "to module-level and to function-local classes), sync or async, plain function or method; resources are static, made by a "
-    "sync or async factory, inherited from the parent context or missing; the call happens in the same context, a nested one, "
-    "another task or without any context; 12% decoration-time negatives (positional-only, unannotated, uncalled marker); "
+    "sync or async factory, inherited from the parent context, missing, or published only in a side context (a child entered "
+    "and left before the call: nothing matches); the call happens in the same context, a nested one, another task, a component's "
+    "start() or without any context, optionally after another context (nested, or with an explicit non-current parent) was entered "
+    "and left; 12% decoration-time negatives (positional-only, unannotated, uncalled marker); "
     "differential oracle: decorated call vs undecorated call fed by explicit get_resource / get_resource_nowait lookups in "
     "parameter order from an identically rebuilt history - return values (identity classes of injected objects, pass-through "
-    "arguments), exception classes, body-ran counter, factory call counters and resource_added events must agree; negatives "
+    "arguments), exception classes, body-ran counter, factory call counters and resource_added events must agree; plus an absolute "
+    "oracle: the result predicted from the case alone (which object / None / ResourceNotFound / AsyncResourceError per parameter, "
+    "first failure in signature order, second call after late publication); negatives "
     "raise TypeError at decoration; non-trivial = >=2 injected parameters with different names, or a missing optional, or a "
     "factory-made / inherited resource",
     bounds={"quick": "4x2000 (each case runs twice)", "thorough": "16x60000"},
